@@ -1,4 +1,6 @@
 import GoLevel.Proofs.MemDBConc
+import GoLevel.Proofs.MemArrIter
+import GoLevel.Proofs.MemArrGrow
 import GoLevel.Proofs.Key
 /-!
 # Property C14 — the in-memory table (`leveldb/memdb`)
@@ -18,6 +20,11 @@ The comparer is any `cmp` with `LawfulCmp cmp` (strict total order identifying o
 `lawful_bytewise` instantiates it for the built-in comparer.  The theorems quantify over all byte strings as
 keys; the internal-key comparer is such an order only on well-formed internal keys (C15), for it the
 correspondence is checked by the harness (`i:<cmp>` tables).
+
+The array encoding: `GoLevel/Model/MemArr.lean` transcribes `memdb.go` over the flat arrays `kvData`/`nodeData`
+(`prevNode`, `maxHeight`, `n`, `kvSize`), every function returning `none` for a Go panic or exhausted fuel.
+`memarr_simulates_ideal` relates it to the ideal skip list through the representation relation `MemArr.Rep`
+(`GoLevel/Proofs/MemArrBasic.lean`), `memarr_refines_map` composes that with `memdb_refines_map`.
 
 What the sequential theorems do not cover (and the harness does not generate): `Next` on an iterator whose
 current node has been deleted (the Go code follows the dead node's stale pointer; the ideal list has no dead
@@ -104,6 +111,104 @@ example : Iter.run bytesCompare (exec bytesCompare DB.empty [.put [1] [] 1, .put
     { start := some [2], limit := some [4] } [.last, .prev, .prev, .next, .seek [0], .next, .next, .prev] =
     [some ([3], [8]), some ([2], [7]), none, some ([2], [7]), some ([2], [7]), some ([3], [8]), none,
      some ([3], [8])] := by decide
+
+/-! ## the array encoding (`kvData`, `nodeData`) -/
+
+/-- The arrays simulate the ideal skip list.  `MemArr.Rep cmp a d ix` says that the arrays `a` represent the ideal
+list `d` with the live node of key `k` at index `ix k`: every ideal level is the chain of next pointers of that level
+from the head, the node fields are offset/lengths/height with the key and value bytes at those offsets of `kvData`, no
+index dangles, the index ranges of live nodes are disjoint, `maxHeight`/`n`/`kvSize`/`len(kvData)` are the ideal
+counters, the head's pointers above `maxHeight` are 0, `prevNode` is unconstrained scratch of length `tMaxHeight`.
+Then: `New` is represented; every operation (`Put` with a height in `1 … tMaxHeight`, `Delete`, `Reset`, `Get`,
+`Find`, `Contains`, `Len`, `Size`) on a represented state does not panic (result `some`), needs no more than
+`len(nodeData)` loop iterations in any search (`lvlFuel d.levels ≤ a.nodeData.size`), returns the ideal answer and
+re-establishes the relation; and every sequence of iterator moves (`fill` with its range checks inside
+`First/Last/Seek/Next/Prev`) of a fresh iterator on a represented state yields the ideal iterator's pairs. -/
+theorem memarr_simulates_ideal (hc : LawfulCmp cmp) :
+    (∀ ix, MemArr.Rep cmp MemArr.DB.new DB.empty ix) ∧
+    (∀ (a : MemArr.DB) (d : DB) (ix : Bytes → Nat) (op : Op), MemArr.Rep cmp a d ix → op.valid →
+      MemArr.lvlFuel d.levels ≤ a.nodeData.size ∧
+      ∃ a' ix', MemArr.step cmp a op = some (a', (step cmp d op).2) ∧ MemArr.Rep cmp a' (step cmp d op).1 ix') ∧
+    (∀ (a : MemArr.DB) (d : DB) (ix : Bytes → Nat), MemArr.Rep cmp a d ix →
+      ∀ (start limit : Option Bytes) (calls : List (Call Bytes)),
+        MemArr.Iter.run cmp a { start := start, limit := limit } calls =
+          some (Iter.run cmp d { start := start, limit := limit } calls)) := by
+  refine ⟨fun ix => MemArr.rep_new ix, ?_, ?_⟩
+  · intro a d ix op r hv
+    exact ⟨r.fuel_ok, MemArr.step_sim hc r op hv⟩
+  · intro a d ix r start limit calls
+    exact MemArr.iter_run_sim hc r calls (MemArr.iterRep_fresh a d ix start limit)
+
+/-- the arrays after `Put [2]→[20]` (height 3), `Put [1]→[10]` (height 1), the overwrite `Put [2]→[21,22]` and
+`Delete [1]`: the overwritten bytes `[2,20]` and the deleted pair `[1,10]` stay in `kvData`, node 16 (key `[2]`) has
+the new offset 4 and value length 2 but its old key length, the dead node 23 still points to node 16, the head
+points to node 16 on all three levels -/
+example : (MemArr.exec bytesCompare MemArr.DB.new
+      [.put [2] [20] 3, .put [1] [10] 1, .put [2] [21, 22] 1, .delete [1]]).map
+    (fun a => (a.nodeData.toList, a.kvData.toList, a.maxHeight, a.n, a.kvSize)) =
+    some ([0, 0, 0, 12, 16, 16, 16, 0, 0, 0, 0, 0, 0, 0, 0, 0, 4, 1, 2, 3, 0, 0, 0, 2, 1, 1, 1, 16],
+      [2, 20, 1, 10, 2, 21, 22], 3, 1, 3) := by decide +kernel
+
+/-- For EVERY operation sequence with heights in `1 … tMaxHeight` the array implementation started from `New` never
+panics and answers `Put`/`Delete`/`Get`/`Find`/`Contains`/`Len`/`Size` exactly like the sorted association list; the
+state reached has `n` = number of pairs and `kvSize` = the sum of their key and value lengths; and on it every sequence
+of iterator calls of a fresh iterator over any `[start, limit)` observes exactly what the specification cursor observes
+over the range-filtered pairs (`memarr_simulates_ideal` composed with `memdb_refines_map`). -/
+theorem memarr_refines_map (hc : LawfulCmp cmp) (ops : List Op) (hv : ∀ op ∈ ops, op.valid) :
+    MemArr.run cmp MemArr.DB.new ops = some (SMap.run cmp [] ops) ∧
+    ∃ a, MemArr.exec cmp MemArr.DB.new ops = some a ∧
+      a.n = (SMap.exec cmp [] ops).length ∧ a.kvSize = SMap.size (SMap.exec cmp [] ops) ∧
+      ∀ (start limit : Option Bytes) (calls : List (Call Bytes)),
+        MemArr.Iter.run cmp a { start := start, limit := limit } calls =
+          some (Cursor.run (SMap.slice cmp start limit (SMap.exec cmp [] ops)) (SMap.ge cmp) .soi calls) := by
+  obtain ⟨h1, h2, _, h4⟩ := memdb_refines_map hc ops hv
+  obtain ⟨hinv, _⟩ := exec_inv hc ops DB.empty (inv_empty cmp) hv
+  have r0 : MemArr.Rep cmp MemArr.DB.new DB.empty (fun _ => 0) := MemArr.rep_new _
+  refine ⟨by rw [MemArr.run_sim hc ops r0 hv, h1], ?_⟩
+  obtain ⟨a, ix, e, r⟩ := MemArr.exec_sim hc ops r0 hv
+  refine ⟨a, e, ?_, ?_, ?_⟩
+  · rw [r.n, hinv.len, ← h2, abs_eq, List.length_map]
+  · rw [r.kvSize, hinv.size, h2]
+  · intro start limit calls
+    rw [MemArr.iter_run_sim hc r calls (MemArr.iterRep_fresh a _ ix start limit), h4]
+
+/-- `kvData` is append-only (no hypothesis on the state): every operation other than `Reset` leaves the bytes already
+in `kvData` where they are — `Put` appends key and value (also when it overwrites: the old bytes stay), `Delete`
+reclaims nothing.  This is what makes the `Key()`/`Value()` slices handed out by `Get`/`Find`/iterators stable until
+the next `Reset`. -/
+theorem memarr_kvdata_append_only (a a' : MemArr.DB) (op : Op) (ans : Ans) (hop : op ≠ .reset)
+    (h : MemArr.step cmp a op = some (a', ans)) : ∃ ext : Array UInt8, a'.kvData = a.kvData ++ ext :=
+  MemArr.step_kvData_grows hop h
+
+/-- an overwrite appends the new pair behind the old one -/
+example : (MemArr.exec bytesCompare MemArr.DB.new [.put [1] [10] 1, .put [1] [11] 1]).map (·.kvData.toList) =
+    some [1, 10, 1, 11] := by decide +kernel
+
+/-- the same for the bytewise comparer -/
+theorem memarr_refines_map_bytewise (ops : List Op) (hv : ∀ op ∈ ops, op.valid) :
+    MemArr.run bytesCompare MemArr.DB.new ops = some (SMap.run bytesCompare [] ops) :=
+  (memarr_refines_map lawful_bytewise ops hv).1
+
+/-- the op list of the ideal model's example, answered by the arrays -/
+example : MemArr.run bytesCompare MemArr.DB.new
+    [.put [2] [20] 3, .put [1] [10] 1, .put [2] [21, 22] 1, .get [2], .find [1, 0], .size, .delete [1],
+     .delete [1], .contains [1], .len, .size, .find [3]] =
+    some [.ok, .ok, .ok, .val [21, 22], .pair [2] [21, 22], .num 5, .ok, .notFound, .bool false, .num 1, .num 3,
+     .notFound] := by decide +kernel
+/-- a ranged iterator over the arrays: the same moves and pairs as the ideal model's example -/
+example : (MemArr.exec bytesCompare MemArr.DB.new [.put [1] [] 1, .put [2] [7] 2, .put [3] [8] 1, .put [4] [] 4]).bind
+    (fun a => MemArr.Iter.run bytesCompare a { start := some [2], limit := some [4] }
+      [.last, .prev, .prev, .next, .seek [0], .next, .next, .prev]) =
+    some [some ([3], [8]), some ([2], [7]), none, some ([2], [7]), some ([2], [7]), some ([3], [8]), none,
+     some ([3], [8])] := by decide +kernel
+/-- what only the arrays can say: `Next` from a node that has just been deleted follows the dead node's pointer
+(here to the successor `[3]`), `Prev` searches with the dead node's key -/
+example : (MemArr.exec bytesCompare MemArr.DB.new [.put [1] [10] 1, .put [2] [20] 2, .put [3] [30] 1]).bind
+    (fun a => (MemArr.Iter.seek bytesCompare a [2] {}).bind fun s =>
+      (MemArr.delete bytesCompare a [2]).bind fun r =>
+        (MemArr.Iter.next bytesCompare r.1 s.1).bind fun n =>
+          (MemArr.Iter.prev bytesCompare r.1 s.1).map fun p => (s.1.node, [n.1.out, p.1.out])) =
+    some (21, [some ([3], [30]), some ([1], [10])]) := by decide +kernel
 
 /-! ## readers and iterators interleaved with a writer -/
 
@@ -194,10 +299,18 @@ whereas the Go code would continue from the dead node — these histories are ou
 example : cyield bytesCompare (cexec bytesCompare {} [Ev.put [1] [] 1, .put [2] [] 1, .move .first, .delete [1]]) .next = none := by
   decide
 
+/-- The atomicity assumed by `concurrent_readers_partial`, as far as the source shows it: the extractor reads
+off `memdb.go` that every public `DB` method and every iterator movement touches the skip-list arrays only
+between taking `mu` and releasing it — one critical section per call (`Gen.memMethodsAtomic`, regenerated
+from the Go AST on every run).  That Go's `sync.RWMutex` then makes those sections atomic is assumed. -/
+theorem code_methods_atomic : Gen.memMethodsAtomic = true := by decide
+
 end GoLevel.C14
 
 namespace GoLevel
 def C14.theorems : List String :=
   ["GoLevel.C14.lawful_bytewise", "GoLevel.C14.inv_preserved", "GoLevel.C14.memdb_refines_map",
-   "GoLevel.C14.memdb_refines_map_bytewise", "GoLevel.C14.concurrent_readers_partial"]
+   "GoLevel.C14.memdb_refines_map_bytewise", "GoLevel.C14.concurrent_readers_partial",
+   "GoLevel.C14.code_methods_atomic", "GoLevel.C14.memarr_simulates_ideal", "GoLevel.C14.memarr_refines_map",
+   "GoLevel.C14.memarr_refines_map_bytewise", "GoLevel.C14.memarr_kvdata_append_only"]
 end GoLevel
